@@ -170,7 +170,7 @@ func runC07(c *Ctx) {
 	pcacheMergePrecedence(c, "C07.vi-merge-precedence")
 	pcacheLoadUnderToken(c, "C07.vi-snapshot-loaded-under-token")
 	pcacheNewestWins(c, "C07.vi-newest-wins")
-	c.Floor("C07.vi-newest-wins", 8)
+	c.Floor("C07.vi-newest-wins", 4) // (the writers may share one comparing helper)
 
 	// ---- (v) readers ---------------------------------------------------------------------
 	c07Readers(c, pcType)
